@@ -50,7 +50,7 @@ for d in sorted(glob.glob(os.path.join(V, "seeded", "*"))):
     needs = re.sub(r"\s+", " ", needs)[:230]
     sigs = "; ".join("%s: %s" % (c, ", ".join(v["signatures"][:2])) for c, v in sorted(m.get("checks", {}).items()) if v["exit"] == 1)
     first = m.get("first_run")
-    rows.append("| `%s` | %s | %s | %s%s | %s |" % (m["name"], m["property"], needs, ", ".join(m.get("detected_by", [])) or "**none**", (" (first run: %s)" % first) if first else "", sigs[:200]))
+    rows.append("| `%s` | %s | %s | %s%s | %s |" % (m["name"], m["property"], needs, ", ".join(m.get("detected_by", [])) or ("neutralised by fix %s (no longer breaks the property)" % m["neutralised_by_fix"] if m.get("neutralised_by_fix") else "**none**"), (" (first run: %s)" % first) if first else "", sigs[:200]))
 put("SEEDED_TABLE", "\n".join(rows))
 open(os.path.join(V, "DESIGN.md"), "w").write(doc)
 print("DESIGN.md tables refreshed")
